@@ -3,7 +3,7 @@
    compared bit for bit (feqb: +0/-0 distinguished, NaNs identified); plus an
    exact rational residual check of Go's output (no float arithmetic trusted). *)
 From Coq Require Import List Bool Arith ZArith QArith Qabs Floats SpecFloat.
-From ADV Require Import Base.Num Base.Corr C04.Model C04.Model2 C04.ModelV C04.ModelV2.
+From ADV Require Import Base.Num Base.Corr C04.Model C04.Model2 C04.Model3 C04.ModelV C04.ModelV2.
 Import ListNotations.
 Local Open Scope nat_scope.
 
@@ -130,7 +130,10 @@ Inductive kase :=
    m_inverse_v on the whole workspaces *)
 | KVInv (et : nat) (ut : bool) (n : nat) (msknil : bool) (msk : list bool)
         (RA CA : nat) (opsA : list vop) (wA0 : fvec) (RI CI : nat) (opsI : list vop) (wI0 : fvec) (m : fmat)
-        (res : outcome (fvec * fvec)).
+        (res : outcome (fvec * fvec))
+(* round 7 — backSubstitution.Run(A, b, &InSitu{X: b [, A: A | dirty buffer]}) on element type et: the result buffer IS
+   the right-hand side; single-buffer model backsub_alias_run; res = the returned vector, bafter = b read after the call *)
+| KBSal (et : nat) (n : nat) (A : fmat) (aliasA : bool) (b res bafter : fvec).
 
 Definition check (c : kase) : bool :=
   match c with
@@ -194,6 +197,9 @@ Definition check (c : kase) : bool :=
       | ErrSingular, ErrSingular => true
       | _, _ => false
       end
+  | KBSal et n A aliasA b res bafter =>
+      let r := backsub_alias_run (num_of et) n (inm et A) aliasA None (inv_ et b) in
+      veq r res && veq r bafter
   end.
 
 Definition mism (cs : list kase) : list nat := mismatches check cs.
